@@ -195,6 +195,8 @@ def write_evidence(prop, tier, seed, sel, res, cross, violations, inconclusive, 
             d['cross_check_kissat'] = dict(status=cross[u.name]['status'], solver_s=cross[u.name].get('solver_s'))
         if r['status'] == 'inconclusive':
             d['reason'] = r.get('reason', '')[:600]
+        if r.get('assume_statements'):
+            d['assume_statements_in_spec_text'] = r['assume_statements']
         if r.get('assumed_obligations'):
             d['assumed_obligations'] = r['assumed_obligations']
         if r.get('woven'):
